@@ -174,8 +174,22 @@ def ocaml_build():
 MODEL = os.path.join(OCAML, "_build", "default", "main.exe")
 
 
+def big_stack():
+    """extracted list functions are not tail recursive: give the model runner an unlimited stack"""
+    import resource
+    try:
+        resource.setrlimit(resource.RLIMIT_STACK, (resource.RLIM_INFINITY, resource.RLIM_INFINITY))
+    except Exception:
+        try:
+            soft, hard = resource.getrlimit(resource.RLIMIT_STACK)
+            resource.setrlimit(resource.RLIMIT_STACK, (hard, hard))
+        except Exception:
+            pass
+
+
 def model_run(mode, text, timeout=3600):
-    p = subprocess.run([MODEL, mode], input=text, stdout=subprocess.PIPE, stderr=subprocess.PIPE, text=True, timeout=timeout)
+    p = subprocess.run([MODEL, mode], input=text, stdout=subprocess.PIPE, stderr=subprocess.PIPE, text=True, timeout=timeout,
+                       preexec_fn=big_stack)
     if p.returncode != 0:
         raise RuntimeError("model runner failed (%s): %s" % (mode, p.stderr[-2000:]))
     return p.stdout.split("\n")[:-1] if p.stdout.endswith("\n") else p.stdout.split("\n")
@@ -327,6 +341,9 @@ class Report:
             print("KNOWN-FINDING: property=%s %s" % (self.pid, k))
         rc = 0
         os.makedirs(os.path.join(ROOT, "replays"), exist_ok=True)
+        for f in os.listdir(os.path.join(ROOT, "replays")):
+            if f.startswith(self.pid + "-"):
+                os.remove(os.path.join(ROOT, "replays", f))
         for i, (what, replay, nofail) in enumerate(self.violations[:5]):
             path = os.path.join(ROOT, "replays", "%s-%d-%d.json" % (self.pid, self.seed, i))
             json.dump({"property": self.pid, "what": what, "replay": replay}, open(path, "w"), indent=1)
